@@ -7,9 +7,11 @@ PROPS_MODULE = "Props.C04"
 THEOREMS = ["default_wf_core", "wf_core_is_certificate", "default_wf_struct", "generations_identical",
             "default_closed_form_is_solution", "default_closed_form_initial", "default_solution_unique"]
 EXTRA_PROPS = {"Props.C04b": ["default_float_data_certificate", "float_matrices_contribution", "lambda_perturbation",
-                             "float_data_error", "default_data_error_below_5e12"]}
-REQUIRED = ["Props/C04.v", "Props/C04b.v", "Proofs/CertDefault/DigestVal.v", "Proofs/CertDefault/FloatDataCert.v"]
-TRANSLATORS = ["tr_data", "tr_tables", "tr_pure"]
+                             "float_data_error", "default_data_error_below_5e12"],
+               "Props.C04s": ["synth_wf_core", "synth_wf_struct", "synth_patterns", "synth_float_certificates",
+                              "synth_closed_form_is_solution", "synth_closed_form_initial", "synth_solution_unique"]}
+REQUIRED = ["Props/C04.v", "Props/C04b.v", "Props/C04s.v", "Proofs/CertDefault/DigestVal.v", "Proofs/CertDefault/FloatDataCert.v"]
+TRANSLATORS = ["tr_data", "synth_dataset", "tr_data_synth", "tr_tables", "tr_pure"]
 SHAPE_KEYS = ["load_dataset"]
 PARTIAL = ["float_data_error bounds the contribution of the stored double-precision DATA (matrices, decay constants) "
            "under exact arithmetic; the rounding of the float ARITHMETIC itself (SciPy dot products, exp) is not "
